@@ -9,7 +9,7 @@ EXTENDS Integers, Sequences, TLC, Json, IOUtils, FiniteSets, SequencesExt
 
 Tier == IF "VERIF_TIER" \in DOMAIN IOEnv THEN IOEnv.VERIF_TIER ELSE "quick"
 Out  == IOEnv.VERIF_OUT
-N(big) == IF Tier = "quick" THEN (IF big THEN 60 ELSE 12) ELSE (IF big THEN 3000 ELSE 300)
+N(big) == IF Tier = "quick" THEN (IF big THEN 60 ELSE 12) ELSE (IF big THEN 15000 ELSE 1000)
 
 Common == {"valid", "xplusp", "nonsubgroup", "offcurve", "random"}
 Edge   == {"zero", "one", "p-1", "p", "max", "small", "short", "long", "empty", "half"}
